@@ -53,23 +53,27 @@ mod parsing {
     }
 
     pub fn parse_mode(pattern: &str, for_dir: bool) -> Result<u32, Box<dyn Error>> {
-        // A mode contains no blanks (the numeric parser would trim them), and
-        // an octal number has at most one operator before it (the numeric
-        // parser would take a second one for the number's sign).
-        let signs = pattern.len() - pattern.trim_start_matches(['+', '-', '=']).len();
-        let numeric = pattern.contains(|c: char| c.is_ascii_digit());
-        if pattern.contains(char::is_whitespace) || numeric && signs > 1 {
+        // A mode contains no blanks (the numeric parser would trim them).
+        if pattern.contains(char::is_whitespace) {
             return Err(From::from(format!("invalid mode '{pattern}'")));
         }
-        let mode = if pattern.contains(|c: char| c.is_ascii_digit()) {
-            parse_numeric(0, pattern, for_dir)?
-        } else {
-            let mut mode = 0;
-            for chunk in pattern.split(',') {
-                mode = parse_symbolic(mode, chunk, 0, for_dir)?;
-            }
-            mode
-        };
+        // The clauses are applied one after the other, starting from nothing.
+        // A clause is symbolic, or an octal number with at most one operator
+        // before it (the numeric parser would take a second one for the
+        // number's sign).
+        let mut mode = 0;
+        for clause in pattern.split(',') {
+            let digits = clause.trim_start_matches(['+', '-', '=']);
+            let signs = clause.len() - digits.len();
+            let numeric = !digits.is_empty() && digits.bytes().all(|b| b.is_ascii_digit());
+            mode = if numeric && signs <= 1 && (signs == 1 || !pattern.contains(',')) {
+                parse_numeric(mode, clause, for_dir)?
+            } else if clause.contains(|c: char| c.is_ascii_digit()) {
+                return Err(From::from(format!("invalid mode '{pattern}'")));
+            } else {
+                parse_symbolic(mode, clause, 0, for_dir)?
+            };
+        }
         Ok(mode)
     }
 }
@@ -93,7 +97,7 @@ impl PermMatcher {
         // spelled (behind "-" or "/" it is the number, built up from nothing).
         let old_any_of = pattern
             .strip_prefix('+')
-            .is_some_and(|rest| !rest.is_empty() && rest.bytes().all(|b| b.is_ascii_digit()));
+            .is_some_and(|rest| rest.starts_with(|c: char| c.is_ascii_digit()));
         if matches!(comparison_type, ComparisonType::Exact) && old_any_of {
             return Err(From::from(format!("invalid mode '{pattern}'")));
         }
